@@ -301,7 +301,10 @@ def special_leaf(draw, ctr, files=('inc_a.yaml', 'inc_b.yaml'), allow_structural
             v = draw(st.one_of(st.integers(0, 9).map(tdoc.sc), st.just(tdoc.raw('a', '!xref')), st.just(tdoc.sq([tdoc.sc(1)], flow=True))))
             items.append([key, v])
         node = tdoc.mp(items, flow=True, tag=f'!{k}:vfrec.call_{n}')
-        fl.pop('del', None) if False else None
+        if draw(st.integers(0, 3)) == 0:
+            # function nodes delete by default: an explicit "merge" (or a restated "delete") is a flag the text has to carry
+            fl['del'] = draw(st.sampled_from([False, False, True]))
+            fl.setdefault('mdstyle', 'braces')
     elif k == 'callsimple':
         node = tdoc.raw(f'vfrec.call_{n}', draw(st.sampled_from(['!call', '!bind'])))
         fl = {}
